@@ -65,7 +65,8 @@ def _rename(e, mapping: Dict[str, str]):
     class T(ast.NodeTransformer):
         def visit_Name(self, n):
             return ast.copy_location(ast.Name(id=mapping.get(n.id, n.id), ctx=n.ctx), n)
-    return T().visit(copy.deepcopy(e))
+    from ..model import clone as _clone
+    return T().visit(_clone(e))
 
 
 # ------------------------------------------------------------------ tail bounds
@@ -254,7 +255,8 @@ def rule_conversions(repo: Repo) -> List[Ob]:
         obs.append(inconclusive(R, key, ST, f.node.lineno, f.qualname, "factorial quotient not found (a library binomial is equally fine)"))
     else:
         import copy
-        q = copy.deepcopy(cands[0])
+        from ..model import clone as _clone
+        q = _clone(cands[0])
         q.op = ast.Div()
         good = _equiv(q, _parse(f"factorial({n_}) / (factorial({k_}) * factorial({n_} - {k_}))"))
         if good is None:
